@@ -1,6 +1,7 @@
 import Ogen.ParamNoPanic_proof
 import Ogen.FlatQueryCoreDelivered_proof
 import Ogen.KnownClassWitnesses_proof
+import Ogen.StyleTable_proof
 /-!
 # C06 — parameter serialization follows the style table and is lossless
 
@@ -66,6 +67,17 @@ theorem query_core_delivered (c : Cfg) (v : Val) (hloc : c.loc = .query)
     explode, `;name=` prefixes, each text percent-escaped) for every core value -/
 theorem path_style_table (c : Cfg) (v : Val) (hname : c.style = .matrix → contains c.name 0x3d = false)
     (hcore : CorePath c v) : pathEnc c v = .ok (pathWire pathEscape c v) := pathEnc_ok c v hname hcore
+
+/-- the header, cookie and query encoders write the style table's serialization too (`headerTable`,
+    `cookieTable` under cookie escaping, `queryTable`: `a,b`, `k,v,k,v`, `k=v,k=v`, one entry per item when
+    exploded, `name[k]=v` for deepObject, the form / space / pipe separators) for every core value -/
+theorem header_style_table (c : Cfg) (v : Val) (hcore : CoreFlat (if c.explode then 0x3d else 0x2c) v) :
+    headerEnc c v = .ok (some (headerTable c.explode v)) := Codec.header_style_table c v hcore
+theorem cookie_style_table (c : Cfg) (v : Val) (hex : (∀ s, v ≠ .prim s) → c.explode = false)
+    (hcore : CoreFlat 0x2c v) : cookieEnc c v = .ok (some (escapeCookie (cookieTable v))) :=
+  Codec.cookie_style_table c v hex hcore
+theorem query_style_table (c : Cfg) (v : Val) (hcore : CoreQuery c v) :
+    queryEnc c v = .ok (queryTable c v) := Codec.query_style_table c v hcore
 
 /-- ambiguous values are refused: whenever the path encoder produces a wire, no array item
     contained the active separator and no object key/value contained its separator -/
